@@ -5,6 +5,7 @@
 package marker_options
 
 import (
+	"io"
 	"errors"
 	"fmt"
 	"sort"
@@ -64,6 +65,10 @@ type MarkerPlan struct {
 	// Masks are the drawn survival subsets used at crash points with more than
 	// maxExhaustive keep() decisions (bit i = decision i survives).
 	Masks []uint64 `json:"masks,omitempty"`
+	// Health: the file system is additionally wrapped by vfs.WithDiskHealthChecks,
+	// as Pebble does by default (Options.WithFSDefaults): errors must pass
+	// through that layer unchanged.
+	Health bool `json:"health,omitempty"`
 }
 
 const maxExhaustive = 6
@@ -84,6 +89,7 @@ func genMarkerValue(t *rapid.T) string {
 func genMarker(t *rapid.T) MarkerPlan {
 	var p MarkerPlan
 	p.Dir = rapid.SampledFrom([]string{"", "db"}).Draw(t, "dir")
+	p.Health = rapid.IntRange(0, 2).Draw(t, "health") == 0
 	nNames := 1
 	if rapid.IntRange(0, 9).Draw(t, "two") >= 7 {
 		nNames = 2
@@ -113,6 +119,11 @@ func genMarker(t *rapid.T) MarkerPlan {
 			// NB: rapid's integer draws are biased towards small values, so the
 			// common alternative is always the low end of the range.
 			switch f := rapid.IntRange(0, 19).Draw(t, "fault"); {
+			case f == 11:
+				// the directory sync that makes the move durable fails: Move
+				// panics by design (handled as a process crash)
+				st.Fault = "dirsync"
+				st.Sel = rapid.IntRange(0, 1000).Draw(t, "dsel")
 			case f >= 18:
 				st.Fault = "create"
 			case f >= 15:
@@ -182,6 +193,7 @@ type crashImage struct {
 }
 
 type markerRun struct {
+	healthCloser io.Closer
 	p       MarkerPlan
 	mem     *vfs.MemFS
 	fs      vfs.FS
@@ -267,6 +279,8 @@ func (r *markerRun) inject(op errorfs.Op) error {
 			match = op.Kind == errorfs.OpCreate
 		case "sync":
 			match = op.Kind == errorfs.OpFileSync && op.Path != r.p.Dir
+		case "dirsync":
+			match = op.Kind == errorfs.OpFileSync && op.Path == r.p.Dir
 		case "remove":
 			if op.Kind == errorfs.OpRemove {
 				match = r.faultSeen == r.step.FaultN
@@ -444,6 +458,19 @@ func (r *markerRun) countFiles(m int) int {
 }
 
 // locate (re)opens marker m on the live filesystem.
+// wrapFS builds the file-system stack over r.mem.
+func (r *markerRun) wrapFS() {
+	if r.healthCloser != nil {
+		_ = r.healthCloser.Close()
+		r.healthCloser = nil
+	}
+	r.fs = errorfs.Wrap(r.mem, errorfs.InjectorFunc(r.inject))
+	if r.p.Health {
+		r.fs, r.healthCloser = vfs.WithDiskHealthChecks(r.fs, time.Hour, nil, func(vfs.DiskSlowInfo) {})
+		r.label("disk-health-fs")
+	}
+}
+
 func (r *markerRun) locate(m int) {
 	if r.markers[m] != nil {
 		_ = r.markers[m].Close()
@@ -477,7 +504,7 @@ func (r *markerRun) switchTo(im *crashImage) {
 		}
 	}
 	r.mem = im.fs
-	r.fs = errorfs.Wrap(r.mem, errorfs.InjectorFunc(r.inject))
+	r.wrapFS()
 	r.pending = nil
 	for m, name := range r.p.Names {
 		v, err := atomicfs.ReadMarker(r.mem, r.p.Dir, name)
@@ -550,7 +577,7 @@ func execMarker(p MarkerPlan) (evid.Outcome, error) {
 		_ = df.Sync()
 		_ = df.Close()
 	}
-	r.fs = errorfs.Wrap(r.mem, errorfs.InjectorFunc(r.inject))
+	r.wrapFS()
 	r.markers = make([]*atomicfs.Marker, len(p.Names))
 	for m := range p.Names {
 		r.locate(m)
@@ -573,6 +600,16 @@ func execMarker(p MarkerPlan) (evid.Outcome, error) {
 				r.moveInFly = false
 				if x := recover(); x != nil {
 					if _, ok := x.(crashSentinel); ok {
+						crashed = true
+						return
+					}
+					if e, ok := x.(error); ok && errors.Is(e, errorfs.ErrInjected) && st.Kind == "move" && st.Fault == "dirsync" && r.faulted {
+						// Move panics when the directory sync fails (marker.go): the
+						// process dies; reboot on one of the crash images of this state.
+						r.label("move-panics-on-dirsync-error")
+						imgs := r.checkCrashPoint("after Move panicked on the failed directory sync")
+						im := imgs[st.Sel%len(imgs)]
+						r.crashImg = &im
 						crashed = true
 						return
 					}
